@@ -4,6 +4,8 @@ package main
 // known findings, baseline comparison, replay, evidence.
 
 import (
+	"go/types"
+	"sync"
 	"encoding/json"
 	"flag"
 	"fmt"
@@ -26,6 +28,7 @@ type PropertySpec struct {
 	Level      string   `json:"level"`
 	Trusted    []string `json:"trusted_base"`
 	NoClosure  bool     `json:"no_closure,omitempty"`
+	SweepFiles []string `json:"sweep_files,omitempty"` // safety sweep: every function declared in these files (relative to /repo) gets a thin contract; only safe.* obligations are claimed
 }
 
 type KnownFinding struct {
@@ -196,6 +199,13 @@ func (e *Engine) generateFor(ps *PropertySpec) ([]*FuncGen, error) {
 	for _, k := range order {
 		gens = append(gens, done[k])
 	}
+	if len(ps.SweepFiles) > 0 {
+		sg, err := e.sweep(ps, done)
+		if err != nil {
+			return nil, err
+		}
+		gens = append(gens, sg...)
+	}
 	for _, lm := range e.cs.Lemmas {
 		if !matchAny(lemmaRes, lm.Name) {
 			continue
@@ -331,6 +341,13 @@ func cmdCheck(args []string) int {
 		sv.all = true
 	}
 	defer sv.Close()
+	baseline, provedFuncs := loadBaseline(filepath.Join(*verif, "baseline", id+".json"))
+	if len(baseline) > 0 && !*writeBaseline {
+		// sweep obligations that were never proved are not retried one by one
+		sv.skip = func(o *Obligation) bool {
+			return o.Gen.sweep && !baseline[baseName(o.Name)] && !provedFuncs[o.Func]
+		}
+	}
 	results := runObligations(sv, obls)
 	// second pass: a failed side check (safety, overflow, exactness) must not
 	// be assumed afterwards - it would make everything behind it vacuous.
@@ -338,7 +355,7 @@ func cmdCheck(args []string) int {
 		failedBy := map[*FuncGen]bool{}
 		for _, r := range results {
 			ok := oblOK(r)
-			if !ok && r.O.AssumeIdx > 0 {
+			if !ok && r.O.AssumeIdx > 0 && !r.O.Gen.sweep {
 				if r.O.Gen.disabled == nil {
 					r.O.Gen.disabled = map[int]bool{}
 				}
@@ -368,8 +385,6 @@ func cmdCheck(args []string) int {
 		fmt.Fprintln(os.Stderr, "engine error:", err)
 		return 2
 	}
-	baseline, provedFuncs := loadBaseline(filepath.Join(*verif, "baseline", id+".json"))
-
 	var reports []oblReport
 	discharged := 0
 	required := 0
@@ -380,6 +395,7 @@ func cmdCheck(args []string) int {
 	var violations []string
 	knownHit := map[string]bool{}
 	seenNames := map[string]bool{}
+	var sweepUndecided []string
 	moreViolations := 0
 	exit := 0
 	// retry timeouts of previously proved obligations once, all together, with a
@@ -445,8 +461,13 @@ func cmdCheck(args []string) int {
 			}
 			continue
 		}
-		required++
 		b := baseName(r.O.Name)
+		if r.O.Gen.sweep && !(baseline[b] || provedFuncs[r.O.Func]) {
+			// safety sweep: an instruction that was never shown safe is not claimed (and is no alarm)
+			sweepUndecided = append(sweepUndecided, r.O.Name+" ("+r.V.Status+") "+r.O.Pos+" "+r.O.Desc)
+			continue
+		}
+		required++
 		if groups[b] == nil {
 			groups[b] = &failGroup{base: b}
 			groupOrder = append(groupOrder, b)
@@ -524,6 +545,10 @@ func cmdCheck(args []string) int {
 	// fixed findings must not reappear: nothing to do (they are ordinary obligations)
 
 	wall := time.Since(t0).Seconds()
+	if len(sweepUndecided) > 0 && !*quiet {
+		fmt.Printf("safety sweep: %d instructions not shown safe (not claimed; listed in the evidence)\n", len(sweepUndecided))
+	}
+	sweepNote = sweepUndecided
 	ev := buildEvidence(id, *tier, seed, ps, reports, funcReports, funcOrder, required, discharged, solverTime, backends, fromCache, undecided, violations, known, knownHit, assumptions, abstracted, unsupported, missing, wall, loadS, timeout, e)
 	os.MkdirAll(filepath.Join(*verif, "evidence"), 0o755)
 	data, _ := json.MarshalIndent(ev, "", " ")
@@ -574,6 +599,8 @@ func oblOK(r Result) bool {
 	}
 	return r.V.Status == "unsat"
 }
+
+var sweepNote []string
 
 func nonNil(s []string) []string {
 	if s == nil {
@@ -681,6 +708,7 @@ func buildEvidence(id, tier string, seed int, ps *PropertySpec, reports []oblRep
 		"missing_baseline":         nonNil(missing),
 		"slow_obligations":         slow,
 		"not_decided":              ps.NotDecided,
+		"sweep_not_shown_safe":     nonNil(sweepNote),
 		"violating_obligations":    nonNil(violations),
 		"evaluations":              len(reports),
 		"distinct_nontrivial":      len(reports),
@@ -697,4 +725,140 @@ func buildEvidence(id, tier string, seed int, ps *PropertySpec, reports []oblRep
 		"wall_s":      wall,
 		"violations":  len(violations),
 	}
+}
+
+
+// sweep: zero-annotation no-panic pass. Every function declared in the listed
+// files that has no contract of its own is executed symbolically under a thin
+// contract (pointer receiver non-nil, may modify anything); only its safe.*
+// obligations are kept.
+func (e *Engine) sweep(ps *PropertySpec, done map[string]*FuncGen) ([]*FuncGen, error) {
+	want := map[string]bool{}
+	for _, f := range ps.SweepFiles {
+		want[filepath.Join(e.repo, f)] = true
+	}
+	var names []string
+	for name, fn := range e.funcs {
+		if fn.Pos() == 0 || len(fn.Blocks) == 0 || fn.Synthetic != "" || fn.Parent() != nil {
+			continue
+		}
+		p := e.fset.Position(fn.Pos())
+		if !want[p.Filename] {
+			continue
+		}
+		if _, ok := done[name]; ok {
+			continue
+		}
+		names = append(names, name)
+	}
+	sort.Strings(names)
+	thinContract := func(name string) *Contract {
+		fn := e.funcs[name]
+		c := &Contract{Key: name, Loops: map[int]*LoopSpec{}, Modifies: []string{"*"}, Thin: true}
+		if fn.Pkg != nil {
+			c.PkgPath = fn.Pkg.Pkg.Path()
+		}
+		for j, p := range fn.Params {
+			pn := fmt.Sprintf("a%d", j)
+			if j == 0 && fn.Signature.Recv() != nil {
+				c.Recv = "recv"
+				if _, isPtr := p.Type().Underlying().(*types.Pointer); isPtr {
+					ex, _ := ParseExpr("recv != nil")
+					c.Requires = append(c.Requires, Clause{Expr: ex, Src: "recv != nil"})
+				}
+				continue
+			}
+			c.Params = append(c.Params, pn)
+		}
+		return c
+	}
+	run := func(infer bool) []*FuncGen {
+		out := make([]*FuncGen, len(names))
+		var wg sync.WaitGroup
+		sem := make(chan struct{}, 8)
+		for i, name := range names {
+			i, name := i, name
+			wg.Add(1)
+			go func() {
+				defer wg.Done()
+				sem <- struct{}{}
+				defer func() { <-sem }()
+				fn := e.funcs[name]
+				c := e.cs.Funcs[name]
+				thin := false
+				if c == nil || c.Extern || c.NoVerify {
+					thin = true
+					c = thinContract(name)
+				} else if c.Thin {
+					thin = true
+				}
+				g := e.NewFuncGen(fn, c)
+				g.sweep = thin
+				if err := g.Generate(); err != nil {
+					g.unsupported = "generation error: " + err.Error()
+				}
+				if thin {
+					var keep []*Obligation
+					for _, o := range g.obls {
+						if strings.HasPrefix(o.Kind, "safe.") || (o.Kind == "pre" && strings.Contains(o.Desc, "[inferred]")) {
+							keep = append(keep, o)
+						}
+					}
+					g.obls = keep
+				} else if !infer {
+					g.applyAbstractions()
+					g.applySplits()
+				}
+				out[i] = g
+			}()
+		}
+		wg.Wait()
+		return out
+	}
+	// phase A: necessary preconditions. A parameter dereferenced unconditionally in the
+	// entry block must be non-nil: that becomes a `requires` of the function's thin
+	// contract, checked at its call sites (only for functions that are not executed in place).
+	first := run(true)
+	probe := &FuncGen{Core: &Core{}}
+	for i, g := range first {
+		if g == nil || !g.sweep || g.unsupported != "" {
+			continue
+		}
+		fn := e.funcs[names[i]]
+		if probe.canInline(fn) {
+			continue
+		}
+		c := thinContract(names[i])
+		added := false
+		for _, o := range g.obls {
+			if o.Kind != "safe.nil" || !o.InEntry {
+				continue
+			}
+			for j, p := range fn.Params {
+				if o.Goal == fmt.Sprintf("(not (= %s 0))", q("p:"+p.Name())) {
+					pn := fmt.Sprintf("a%d", j)
+					if j == 0 && fn.Signature.Recv() != nil {
+						continue
+					}
+					src := pn + " != nil"
+					dup := false
+					for _, r := range c.Requires {
+						if r.Src == src {
+							dup = true
+						}
+					}
+					if !dup {
+						ex, _ := ParseExpr(src)
+						c.Requires = append(c.Requires, Clause{Expr: ex, Src: src, Label: "inferred"})
+						added = true
+					}
+				}
+			}
+		}
+		if added {
+			e.cs.Funcs[names[i]] = c
+		}
+	}
+	out := run(false)
+	return out, nil
 }
